@@ -20,6 +20,28 @@ namespace Cerberus
 
 abbrev Ref := Nat
 
+/- exact (structural) equality of values: `1`, `True` and `1.0` are three different values here -/
+mutual
+def Val.same : Val → Val → Bool
+  | .none, .none => true
+  | .bool a, .bool b => a == b
+  | .int a, .int b => a == b
+  | .flt m e, .flt m' e' => m == m' && e == e'
+  | .str a, .str b => a == b
+  | .fn a, .fn b => a == b
+  | .seq t xs, .seq t' ys => t == t' && Val.sameL xs ys
+  | .dict a, .dict b => Val.sameD a b
+  | _, _ => false
+def Val.sameL : List Val → List Val → Bool
+  | [], [] => true
+  | x :: xs, y :: ys => Val.same x y && Val.sameL xs ys
+  | _, _ => false
+def Val.sameD : List (Key × Val) → List (Key × Val) → Bool
+  | [], [] => true
+  | (k, x) :: xs, (k', y) :: ys => k == k' && Val.same x y && Val.sameD xs ys
+  | _, _ => false
+end
+
 inductive Cell where
   | leaf (v : Val)                         -- None, bool, int, float, str, callable
   | seq (tup : Bool) (refs : List Ref)
@@ -136,7 +158,7 @@ def hRenameWrite (h : Heap) (m : Ref) (f : Key) (before after : List (Key × Val
       if Val.dhas after f then h
       else
         -- renamed onto an existing key: that key now holds the moved reference
-        match (after.filter (fun kv => !(Val.pyEq kv.2 ((Val.dlookup before kv.1).getD .none)))).head? with
+        match (after.filter (fun kv => !(Val.same kv.2 ((Val.dlookup before kv.1).getD .none)))).head? with
         | some (target, _) => (h.setItem m target ref).delItem m f
         | none => h.delItem m f
 
@@ -157,7 +179,7 @@ def hStoreNew (h : Heap) (m : Ref) (k : Key) (v : Val) : Heap :=
 
 def hDefaultsWrite (m : Ref) (before : List (Key × Val)) (acc : Heap) (kv : Key × Val) : Heap :=
   match Val.dlookup before kv.1 with
-  | some old => if Val.pyEq old kv.2 && old.ctor == kv.2.ctor then acc else hStoreNew acc m kv.1 kv.2
+  | some old => if Val.same old kv.2 then acc else hStoreNew acc m kv.1 kv.2
   | none => hStoreNew acc m kv.1 kv.2
 
 /-- defaults and default setters: new values are freshly allocated and stored in `m` -/
@@ -168,7 +190,7 @@ def hDefaults (env : Env) (ctx : Ctx) (schema : Val) (rs : RSchema) (m : Ref) (s
 
 def hCoerceWrite (h : Heap) (m : Ref) (f : Key) (before after : List (Key × Val)) : Heap :=
   match Val.dlookup before f, Val.dlookup after f with
-  | some a, some b => if Val.pyEq a b && a.ctor == b.ctor then h else hStoreNew h m f b
+  | some a, some b => if Val.same a b then h else hStoreNew h m f b
   | _, _ => h
 
 /-- coercion: `mapping[field] = coercer(mapping[field])` — the result is stored in `m` -/
@@ -273,14 +295,14 @@ def hDictField (env : Env) (recN : RecN) (hrec : HRecN) (ctx : Ctx) (own : Optio
       hDictSchema env hrec ctx own m f
         ((Heap.lookupRef (s2.h.ents m) f).getD ((Heap.lookupRef (s1.h.ents m) f).getD vref)) s2
 
-def hSeqField (hrec : HRecN) (ctx : Ctx) (own : Option Val) (m : Ref) (f : Key) (tup : Bool) (items : List Ref)
+def hSeqField (env : Env) (hrec : HRecN) (ctx : Ctx) (own : Option Val) (m : Ref) (f : Key) (tup : Bool) (items : List Ref)
     (s : HState) : M HState :=
   match own with
   | some o =>
     match o.dget? (kS "schema") with
     | some c =>
       hChildSeq hrec (ctx.child (.dict (mval s.h m)) {} (some f) [f, kS "schema"])
-        (.dict ((List.range items.length).map (fun i => (Key.i (Int.ofNat i), c)))) m f tup items
+        (.dict ((List.range items.length).map (fun i => (Key.i (Int.ofNat i), N.seqConstraint env c)))) m f tup items
         ctx.schemaPath.length s
     | none =>
       match o.dget? (kS "items") with
@@ -304,7 +326,7 @@ def hContainerField (env : Env) (recN : RecN) (hrec : HRecN) (ctx : Ctx) (rs : R
     | some vref =>
       match s.h.get vref with
       | .dict _ => hDictField env recN hrec ctx own m f vref s
-      | .seq tup items => hSeqField hrec ctx own m f tup items s
+      | .seq tup items => hSeqField env hrec ctx own m f tup items s
       | .leaf _ => .ok s
 
 def hContainers (env : Env) (recN : RecN) (hrec : HRecN) (ctx : Ctx) (rs : RSchema) (m : Ref) :
